@@ -58,6 +58,7 @@ import Aldrin.Lemmas.Broker.Events
 import Aldrin.Lemmas.Broker.Xref2
 import Aldrin.Lemmas.Broker.RepExt
 import Aldrin.Lemmas.Broker.Callee
+import Aldrin.Lemmas.Broker.SvcCalls
 
 set_option linter.unusedSimpArgs false
 set_option linter.unusedVariables false
@@ -533,6 +534,33 @@ theorem ended_callee_means_answered (es : List Event) (b : Broker) (w : Work) (b
     · rfl
   have := well_behaved_caller_exactly_once es b w b' w' outs hr c n hn hl hwb
   exact ⟨hp, by omega⟩
+
+/-- **The calls pending at a service that goes are answered `InvalidService`.** `remove_service` (reached from
+`DestroyService`, `DestroyObject` and the teardown of the owner's connection), from any state in which it succeeds: every
+call in the service's set leaves the broker's call table, and for every one of them that has not been aborted exactly one
+item `(caller's serial, caller, InvalidService)` is put in front of the deferred replies, in the order of the set; nothing
+else is deferred as a reply. (That the set lists no call twice is not assumed: a second visit would not find the call.) -/
+theorem destroyed_service_answers_invalid_service {s s' : St} {c : Cookie} {objId : ObjId} {svcUuid : Uuid} {info : SvcInfo} {svc : Svc}
+    (hu : AL.find? c s.b.svcUuids = some (objId, svcUuid, info)) (hs : AL.find? (objId.uuid, svcUuid) s.b.svcs = some svc)
+    (hr : removeService s c = .ok s') :
+    s'.w.removeCalls = (invalidServiceItems s.b.calls svc.calls).reverse ++ s.w.removeCalls ∧
+    (∀ k, s'.b.calls.get? k = if k ∈ svc.calls then none else s.b.calls.get? k) :=
+  removeService_pending_calls hu hs hr
+
+/-- and the work loop turns such an item into the reply: `CallFunctionReply(serial, result)` to the caller if it is still
+connected (and its own record of the call goes), nothing otherwise -/
+theorem deferred_reply_is_sent {s : St} {serial : Nat} {cid : ConnId} {result : CallResult} {rest : List (Nat × ConnId × CallResult)}
+    (h0 : s.w.removeConns = []) (h1 : s.w.unsubscribeEvent = []) (h2 : s.w.unsubscribeAll = []) (h3 : s.w.servicesDestroyed = [])
+    (hq : s.w.removeCalls = (serial, cid, result) :: rest) :
+    processOne s = some (match (s.setWRemoveCalls rest).conn? cid with
+      | none => .ok (s.setWRemoveCalls rest)
+      | some conn =>
+        if (AL.find? serial conn.calls).isNone then .error (.debugAssert "remove_function_call: remove_call") else
+        .ok (((s.setWRemoveCalls rest).setConn cid { conn with calls := AL.erase serial conn.calls }).sendOrRemove cid
+          (.callFunctionReply serial result))) := by
+  unfold processOne
+  simp only [h0, h1, h2, h3, hq]
+  congr 1
 
 /-! non-vacuity: a call is pending, the owner disconnects, the caller is answered `InvalidService` in that turn and
 nothing is left pending -/
